@@ -21,9 +21,16 @@ import (
 type decl struct {
 	Method  string
 	Pattern string
+	// Disabled: the endpoint is declared but its remedy and diagnosis are switched off
+	Disabled bool `json:",omitempty"`
 }
 
-func (d decl) String() string { return d.Method + " " + d.Pattern }
+func (d decl) String() string {
+	if d.Disabled {
+		return d.Method + " " + d.Pattern + " (switched off)"
+	}
+	return d.Method + " " + d.Pattern
+}
 
 // remedy i has its own type so the loader's duplicate-type check never rejects a set
 func remedyFor(i int) sharedConfig.Remedy {
@@ -56,21 +63,34 @@ type outcome struct {
 func build(decls []decl, order []int) (*config.EndpointPolicyTree, error) {
 	eps := make([]sharedConfig.EndpointConfig, 0, len(decls))
 	for _, i := range order {
+		rem := remedyFor(i)
+		rem.Enabled = !decls[i].Disabled
 		eps = append(eps, sharedConfig.EndpointConfig{URL: decls[i].Pattern, Method: decls[i].Method,
-			Remedies:  []sharedConfig.Remedy{remedyFor(i)},
-			Diagnosis: []sharedConfig.Diagnosis{{Enabled: true, Name: fmt.Sprintf("d%d", i)}}})
+			Remedies:  []sharedConfig.Remedy{rem},
+			Diagnosis: []sharedConfig.Diagnosis{{Enabled: !decls[i].Disabled, Name: fmt.Sprintf("d%d", i)}}})
 	}
-	return config.BuildEndpointPolicyTree(eps)
+	// through the loader's own entry point (what every load / reload / revert path calls)
+	pd, err := config.BuildPolicyData(&sharedConfig.PoliciesConfig{Endpoints: eps}, false)
+	if err != nil {
+		return nil, err
+	}
+	return &pd.EndpointPolicyTree, nil
 }
 
 func lookup(tree *config.EndpointPolicyTree, rq request) outcome {
 	var o outcome
 	for _, sr := range runner.VerifGetRemedies(rq.Method, rq.URL, tree) {
+		if !sr.Remedy.Enabled {
+			continue // a switched-off remedy is carried by the tree but never run
+		}
 		o.Remedies = append(o.Remedies, sr.Remedy.Name)
 		o.Normalized = sr.NormalizedURL
 		o.Params = sr.PathParams
 	}
 	for _, sd := range runner.VerifGetDiagnoses(rq.Method, rq.URL, tree) {
+		if !sd.Diagnosis.Enabled {
+			continue
+		}
 		o.Diagnoses = append(o.Diagnoses, sd.Diagnosis.Name)
 		if o.Normalized == "" {
 			o.Normalized = sd.NormalizedURL
@@ -197,10 +217,12 @@ func TestCheck(t *testing.T) {
 	// names for one position, so sets mixing the spellings are either rejected in every
 	// order or must behave like any other set
 	patterns = append(patterns, "h.com/{P}", "h.com/{P}/a", "h.com/a/{Q}", "h.com/{P}/{q}")
+	// a host written with a capital letter (a different host for the pattern language)
+	patterns = append(patterns, "H.com/a", "H.com/{p}")
 	var universe []decl
 	for _, p := range patterns {
 		for _, m := range []string{"GET", "POST"} {
-			universe = append(universe, decl{m, p})
+			universe = append(universe, decl{Method: m, Pattern: p})
 		}
 	}
 	var reqs []request
@@ -214,6 +236,9 @@ func TestCheck(t *testing.T) {
 		}
 		return true
 	})
+	for _, m := range []string{"GET", "POST"} {
+		reqs = append(reqs, request{m, "H.com/a"}, request{m, "H.com/c"})
+	}
 	if f := mc.ReplayFile(); f != "" {
 		var rp replay
 		if err := mc.LoadReplay(f, &rp); err != nil {
@@ -232,7 +257,7 @@ func TestCheck(t *testing.T) {
 		return
 	}
 	maxSet := 3
-	r.Rule = fmt.Sprintf("all endpoint declaration sets of size 1..%d over %d (method, pattern) pairs (%d patterns; host h.com, parts {a,b,{p},*}) x every declaration order x %d requests (GET/POST x paths of length 0-3 over {a,b,c}) through BuildEndpointPolicyTree and the dispatcher's getRemedies/getDiagnoses; non-trivial = request for which something was selected; distinct = (set, order, request)", maxSet, len(universe), len(patterns), len(reqs))
+	r.Rule = fmt.Sprintf("all endpoint declaration sets of size 1..%d over %d (method, pattern) pairs (%d patterns; host h.com, parts {a,b,{p},*}) x every declaration order x %d requests (GET/POST x paths of length 0-3 over {a,b,c}) through BuildPolicyData (the loader's entry point) and the dispatcher's getRemedies/getDiagnoses; plus sets of 2-3 over 14 pairs in which one declaration is switched off (it still is the most specific declared pattern for what it matches); non-trivial = request for which something was selected; distinct = (set, order, request)", maxSet, len(universe), len(patterns), len(reqs))
 	r.Assume("every endpoint carries a remedy of a different type (so the loader's duplicate-type check accepts overlapping endpoints) and one diagnosis",
 		"completeness (something must be selected) is not asserted: the statement is an only-if; a trailing wildcard may match an empty tail in policy mode")
 	if r.Parallel(t, 16) {
@@ -278,6 +303,52 @@ func TestCheck(t *testing.T) {
 		})
 		if idx%7919 == 3 {
 			r.Sample(map[string]any{"declarations": fmt.Sprint(decls), "requests": len(reqs)})
+		}
+		return true
+	})
+	// one declaration of the set is switched off (declared, nothing enabled): it still is the
+	// most specific declared pattern for the URLs it matches
+	var small []decl
+	for _, p := range []string{"h.com/a", "h.com/{p}", "h.com/*", "h.com/a/b", "h.com/a/{q}", "h.com/a/*", "h.com/{p}/b"} {
+		for _, m := range []string{"GET", "POST"} {
+			small = append(small, decl{Method: m, Pattern: p})
+		}
+	}
+	mc.Subsets(len(small), 2, 3, func(s []int) bool {
+		for off := range s {
+			idx++
+			if !r.Mine(idx) {
+				continue
+			}
+			decls := make([]decl, len(s))
+			for i, k := range s {
+				decls[i] = small[k]
+				decls[i].Disabled = i == off
+			}
+			first := map[request]outcome{}
+			mc.Permutations(len(decls), func(p []int) bool {
+				tree, err := build(decls, p)
+				if err != nil {
+					r.Outcome("build-error")
+					return true
+				}
+				for _, rq := range reqs {
+					o := lookup(tree, rq)
+					r.Add("evaluations", 1)
+					for _, n := range append(append([]string{}, o.Remedies...), o.Diagnoses...) {
+						var i int
+						fmt.Sscanf(n[1:], "%d", &i)
+						if decls[i].Disabled {
+							r.Violation("SWITCHED-OFF-APPLIED", fmt.Sprintf("declarations=%v order=%v request=%s %s: %s of a switched-off declaration was applied", decls, p, rq.Method, rq.URL, n), replay{decls, append([]int{}, p...), rq})
+						}
+					}
+					if len(o.Remedies)+len(o.Diagnoses) > 0 {
+						r.NonTrivial(fmt.Sprint(decls, p, rq))
+					}
+					check(r, decls, p, rq, o, first)
+				}
+				return true
+			})
 		}
 		return true
 	})
